@@ -145,4 +145,35 @@ Theorem C06_search_reads_line_index_type_tokens_only :
     |} fuel h iter best st.
 Proof. exact main_loop_sig. Qed.
 
+(* what the wrapper reads of the incoming tokens (first phase): the events depend on the token vector through tokinfo_of only
+   (type, spaces, content length, last-line length) and on no string of the settings; for a decided token the resulting indentation,
+   continuation and spaces - and whether it starts a line - do not depend on the incoming line breaks or indentation (the number of
+   line breaks does only for the first token of a line, whose blank-line grouping is kept, clamped) *)
+From PasfmtVerif Require Import Model.WrapContexts Model.WrapSearch Model.WrapFormat Proofs.WrapSearchProofs Proofs.WrapWidthFree Proofs.WrapSimProofs Proofs.WrapUnconstrainedProofs Proofs.WrapWidthIndependence Proofs.WrapFileProofs Proofs.WrapReadsProofs Proofs.WrapSoundTransferProofs.
+Theorem C06_search_phase1_reads_tokinfo_only :
+  forall (rs rs' : rsettings) (W : wsettings) (lines : list lline) (l l' : list ftoken),
+  map tokinfo_of l = map tokinfo_of l' ->
+  snd (fst (olf_model rs W false lines l)) = snd (fst (olf_model rs' W false lines l')) /\
+  snd (olf_model rs W false lines l) = snd (olf_model rs' W false lines l').
+Proof. exact olf_phase1_events_read. Qed.
+
+Theorem C06_decided_counters_do_not_read_incoming_layout :
+  forall (rs rs' : rsettings) (W : wsettings) (lines : list lline) 
+    (l l' : list ftoken) (t : nat) (tok : token) (f : fmt) (tok' : token) 
+    (f' : fmt),
+  same_tokens_and_spaces l l' ->
+  let plan := plan_of_events (rev (ss_log (wrap_phase1 W (map tokinfo_of l) lines))) in
+  nth_error (fst (fst (olf_model rs W false lines l))) t = Some (tok, f) ->
+  nth_error (fst (fst (olf_model rs' W false lines l'))) t = Some (tok', f') ->
+  WrapEventsProofs.decs_for t plan <> [] ->
+  tok = tok' /\
+  f_ind f = f_ind f' /\
+  f_cont f = f_cont f' /\
+  f_sp f = f_sp f' /\
+  (0 <? f_nl f) = (0 <? f_nl f') /\
+  (forall (ds : list decision) (d : decision),
+   WrapEventsProofs.decs_for t plan = ds ++ [d] ->
+   is_first_break d = false -> f_nl f = f_nl f').
+Proof. exact olf_phase1_counters_read. Qed.
+
 
